@@ -357,7 +357,37 @@ def check_import_cycle(case):
     return {"nontrivial": k >= 2 or any(case["spell"]), "labels": [f"k={k}", case["kind"]], "sample": {"dirs": dirs, "spell": case["spell"], "limit": case["limit"], "kind": case["kind"]}}
 
 
+# ---------------------------------------------------------------------------------------------
+# "raising the limit never changes the outcome": also to the largest values the option accepts
+HUGE = [1 << 20, (1 << 31) - 1, 1 << 31, (1 << 32) + 1, 1 << 53, 1 << 62, (1 << 63) - 1, 1 << 63, (1 << 64) - 1]
+
+
+@st.composite
+def huge_case(draw):
+    return {"shape": draw(st.sampled_from([n for n in NAMES if not SHAPES[n][2]])), "d": draw(st.sampled_from([0, 1, 3, 10, 40])),
+            "limits": sorted(set(draw(st.lists(st.sampled_from(HUGE), min_size=2, max_size=4)))), "cli": draw(st.integers(0, 2)) == 0}
+
+
+def check_huge(case):
+    src = source(case["shape"], case["d"])
+    base = classify(run_one(src, 100000), src, 100000)
+    if base[0] in ("fuel", "StackOverflow"):
+        return {"labels": ["not-applicable"]}
+    for s in case["limits"]:
+        out = classify(run_one(src, s), src, s)
+        if out != base:
+            raise Violation("outcome-depends-on-limit", f"outcome {base} under -s 100000 becomes {out} under -s {s}: {src[:200]}")
+    if case["cli"]:
+        s = case["limits"][-1]
+        rc0, out0, err0 = run_cli(["-s", "100000", "-e", src])
+        rc1, out1, err1 = run_cli(["-s", str(s), "-e", src])
+        if (rc0, out0) != (rc1, out1):
+            raise Violation("outcome-depends-on-limit", f"the binary exits {rc0} under -s 100000 and {rc1} under -s {s}: {src[:200]}: {err1.decode('utf-8', 'replace')[-300:]}")
+    return {"nontrivial": True, "labels": [case["shape"]], "sample": {"shape": case["shape"], "d": case["d"], "limits": case["limits"]}}
+
+
 CHECKS = [
+    Check("huge_limits", check_huge, huge_case, quick=25, thorough=600),
     Check("every_shape_once", check_sweep, enumerate_fn=enum_cyclic, exhaustive=True),
     Check("limit_sweep", check_sweep, sweep_case, quick=40, thorough=4000),
     Check("threshold_monotone_in_depth", check_threshold, threshold_case, quick=8, thorough=600),
